@@ -17,7 +17,28 @@ SCHEMAS = {
             'fields': {'_in_sess': 'Bool', '_in_term': 'Bool', 'is_open': 'Bool', 'object_path': 'Str'}},
     'TAgent': {'pyclass': ('tcpcl.agent', 'Agent'),
                'fields': {'_config': 'Ref[TConfig]', '_in_shutdown': 'Bool', '_handlers': 'List[Ref[Hdl]]',
-                          '_path_to_handler': 'Dict[Str, Ref[Hdl]]', '_on_stop': 'Opt[Func]'}},
+                          '_path_to_handler': 'Dict[Str, Ref[Hdl]]', '_on_stop': 'Opt[Func]', '_obj_id': 'Int'}},
+}
+
+
+def sb_path_of(eng, k):
+    '''the object path of contact number k: '/org/ietf/dtn/tcpcl/Contact{0}'.format(k) -- the engine models such a
+    template filled with an integer as an injective function named after the template text (pyvc/builtins.py)'''
+    import hashlib
+    import z3
+    from pyvc.sym import V
+    from pyvc.types import TStr
+    tag = hashlib.sha1('/org/ietf/dtn/tcpcl/Contact{0}'.encode()).hexdigest()[:10]
+    f = z3.Function('fmt_' + tag, z3.IntSort(), TStr.sort())
+    return V(TStr, f(k.z))
+
+
+SPECBUILTINS = {'path_of': sb_path_of}
+
+SPECFUNCS = {
+    # every registered object path was made from a contact number below the counter (C18: what makes the next path new)
+    'registry_below': (['s'], 's._obj_id >= 0 and forall(p, "Str", implies(contains(s._path_to_handler, p), '
+                              'exists(k, 0, s._obj_id, p == path_of(k))))'),
 }
 
 GHOST = {
@@ -62,6 +83,20 @@ FUNCS = {
         trusted_reason='closes listening sockets and every handler, leaves the bus: socket and D-Bus library calls',
         modifies=['Hdl.is_open', 'ghost.t_stopped'],
         ensures=[('stopped', 'ghost.t_stopped')]),
+    # C18, agent level: the object path a new contact is exported (and announced) under is not the path of any
+    # registered contact.  Rests on the registry invariant `registry_below`, which this function and _unbind_handler are
+    # proved to keep; that Agent._bind_handler keeps it (it registers exactly the path obtained here) is ASSUMED --
+    # _bind_handler constructs the handler from keyword dictionaries and is not under contract (bounded part:
+    # harness/c18_agent.py).
+    'tcpcl.agent:Agent._get_obj_path': dict(
+        self='Ref[TAgent]', returns='Str', props=['C18'],
+        requires=[('registry', 'registry_below(self)', [])],
+        modifies=['TAgent._obj_id'],
+        ensures=[
+            ('path_is_new', 'not contains(self._path_to_handler, result)', ['C18']),
+            ('numbered_by_the_counter', 'result == path_of(old(self._obj_id)) and self._obj_id == old(self._obj_id) + 1', ['C18']),
+            ('registry_kept', 'registry_below(self)', ['C18']),
+        ]),
     'tcpcl.agent:Agent._unbind_handler': dict(
         self='Ref[TAgent]', params={'hdl': 'Ref[Hdl]'}, props=['C09', 'C18'],
         # (called from the handler's on-close callback: the handler is still registered)
@@ -75,6 +110,11 @@ FUNCS = {
                                          'ghost.t_stopped)', ['C09']),
             ('keeps_running_otherwise', 'implies(not (length(self._handlers) == 0 and (self._in_shutdown or self._config.stop_on_close)), '
                                         'ghost.t_stopped == old(ghost.t_stopped))', ['C09']),
+            # C18: the registry invariant behind "a new object path is new" survives the removal of a contact, and the
+            # other contacts stay registered under their paths
+            ('registry_kept', 'implies(old(registry_below(self)), registry_below(self))', ['C18']),
+            ('others_stay_registered', 'forall(p, "Str", implies(not (p == hdl.object_path), '
+                                       'contains(self._path_to_handler, p) == old(contains(self._path_to_handler, p))))', ['C18']),
         ]),
     'tcpcl.agent:Agent.shutdown': dict(
         self='Ref[TAgent]', returns='Bool', props=['C09'],
